@@ -72,6 +72,7 @@ func Cases(cfg Config, dry *Result, variants []Variant, extraScenarios, rawDial 
 		if !cfg.PSK {
 			cases = append(cases, Case{Cfg: cfg, Scenario: "forcepnet", Fault: Fault{Kind: "none"}})
 		}
+		cases = append(cases, Case{Cfg: cfg, Scenario: "nilpeer", Fault: Fault{Kind: "none"}})
 	}
 	return cases
 }
@@ -134,7 +135,7 @@ func Enumerate(t *testing.T, r *vrep.Result, o EnumOptions) {
 	r.Bounds["variants(teardown order, late Accept, short dial timeout)"] = len(variants)
 	r.Bounds["scenarios"] = "echo x full fault menu"
 	if o.ExtraScenarios {
-		r.Bounds["scenarios"] = "echo x full fault menu; noaccept, threshold, threshold-lnclose, queued-lnclose, forcepnet (each fault-free: the scenario is the fault)"
+		r.Bounds["scenarios"] = "echo x full fault menu; noaccept, threshold, threshold-lnclose, queued-lnclose, forcepnet, nilpeer (each fault-free: the scenario is the fault)"
 	}
 
 	shard, nshards := vrep.Shard()
